@@ -98,6 +98,7 @@ type Chooser interface {
 
 // Run is one simulated execution.
 type Run struct {
+	stallGate chan struct{} // closed by ReleaseStalled
 	mu      sync.Mutex
 	tasks   []*Task
 	byGoid  map[uint64]*Task
@@ -433,8 +434,22 @@ func lessID(a, b string) bool {
 }
 
 // Begin installs r as the active run. End removes it.
-func (r *Run) Begin() { cur.Store(r) }
+func (r *Run) Begin() { r.stallGate = make(chan struct{}); cur.Store(r) }
 func (r *Run) End()   { r.done = true; cur.Store(nil); selState = 0 }
+
+// ReleaseStalled ends the run and lets every task that sits in BlockForever go on, outside
+// the scheduler (all hooks are pass-through once the run has ended). The harness calls it
+// after it has taken its snapshot of the final state, so that stalled goroutines unwind
+// and leave the bubble instead of staying in the process for ever.
+func (r *Run) ReleaseStalled() {
+	r.End()
+	r.mu.Lock()
+	if r.stallGate != nil {
+		close(r.stallGate)
+		r.stallGate = nil
+	}
+	r.mu.Unlock()
+}
 
 // Tasks returns a snapshot of all tasks (call after Loop returned).
 func (r *Run) Tasks() []*Task {
@@ -625,7 +640,13 @@ func BlockForever(site string) {
 		t.site, t.kind = site, "stalled"
 		r.mu.Unlock()
 	}
-	<-make(chan struct{})
+	r.mu.Lock()
+	g := r.stallGate
+	r.mu.Unlock()
+	if g == nil {
+		<-make(chan struct{})
+	}
+	<-g // (closed by ReleaseStalled, after the run has been judged)
 }
 
 // Recv replaces <-ch.
